@@ -1,4 +1,5 @@
 import Babble.Model.Decode
+import Babble.Proofs.ByteCodec
 /-! # C08 — no network input can crash a node (the validation layer is total)
     `Babble.Decode` models, with Go's partial operations explicit, what every hostile string goes
     through first: hex decoding, signature decoding, public-key decoding, signature verification of
@@ -125,5 +126,20 @@ example : decodeSignature [33, 124, 33] = .err := by decide        -- "!|!"
 example : decodeSignature [110, 111] = .err := by decide           -- "no"
 example : verifyItx { keyHex := [], onCurve := false, sig := [49, 124, 50], valid := false } = .ok false := by decide
 example : syncSlice 5 (-1) 1000 = .ok 0 := by decide
+
+/-! ## the success model is the shadow of the value model
+    `Babble.ByteCodec` computes what the two decoders *return* and is compared with the Go functions
+    value for value; the outcome classes used above are exactly its successes and failures. -/
+
+/-- `DecodeFromString`: `ok n` iff the value model decodes to `n` bytes, `err` iff it fails -/
+theorem hex_outcome_is_value_model (s : Bytes) :
+    decodeFromString s = match Babble.ByteCodec.decodeFromString s with
+      | some bs => .ok bs.length
+      | none => .err := Babble.ByteCodec.decode_class s
+
+/-- `DecodeSignature`: `ok` iff the value model produces a pair of integers -/
+theorem signature_outcome_is_value_model (s : Bytes) :
+    decodeSignature s = (if (Babble.ByteCodec.decodeSignature s).isSome then .ok () else .err) :=
+  Babble.ByteCodec.decodeSignature_class s
 
 end Babble.Props.C08
